@@ -130,6 +130,11 @@ def run(chk):
         gen = pylite.Gen(rng, weights={"yieldfrom": 2})
         fn = gen.function(generator=rng.random() < 0.25, size=rng.randrange(4, 12))
         src = pylite.render(fn)
+        if rng.random() < 0.2 and "GLOB1" in src:
+            # the function is a closure; now and then the cell it reads is still empty when it is called
+            empty = rng.random() < 0.4
+            src = m2corr.closure_of(src, empty=empty)
+            chk.dist("closure:" + ("empty cell" if empty else "filled cell"))
         args, script, gscript = progrun.gen_inputs(rng, fn)
         stats["programs"] += 1
         for kd in pylite.stmt_kinds(fn):
